@@ -123,7 +123,7 @@ def ap_root():
 
 def load_program(d):
     sys.path.insert(0, os.path.join(VERIF, 'engine'))
-    from mirsym import srcscan, interp, bi_core, bi_str, bi_more, bi_serde
+    from mirsym import srcscan, interp, bi_core, bi_str, bi_more, bi_serde, bi_std2
     src = srcscan.Sources()
     src.add_crate('', os.path.join(d, 'tree'))
     src.add_crate('abortable_parser', ap_root(), local=False)
@@ -136,6 +136,7 @@ def load_program(d):
     bi_str.install(prog)
     bi_more.install(prog)
     bi_serde.install(prog)
+    bi_std2.install(prog)
     prog.tree = os.path.join(d, 'tree')
     prog.mir_sha = {f: hashlib.sha256(open(os.path.join(d, f), 'rb').read()).hexdigest()[:16] for f in ('ucg.mir', 'bin.mir', 'ap.mir')}
     return prog
